@@ -108,10 +108,11 @@ fn plan_base(prop: &str, tier: &str, h: &dyn Fn(u32, u32) -> PartPlan) -> Vec<Pa
 }
 
 pub fn timeout_s(_prop: &str, tier: &str) -> u64 {
+    // generous: a part that runs into this limit is reported as inconclusive (exit 2), never as a violation
     if tier == "thorough" {
-        3600
+        10800
     } else {
-        900
+        1800
     }
 }
 
